@@ -174,6 +174,17 @@ def c14_jobs(tier, seed):
     return j
 
 
+def c19_jobs(tier, seed):
+    q = tier == "quick"
+    L = 2 if q else 3
+    n = 4 if q else 16
+    j = [Job("rel", "w_contain", "c19 --len %d --nshards %d --shard %d --seed %d --random %d" % (L, n, i, seed, 2000 if q else 20000), timeout=600 if q else 3000, engine="exhaustive-names") for i in range(n)]
+    j += [Job("dbg", "w_contain", "c19 --len 1 --nshards 1 --shard 0 --seed %d --random 3000" % seed, timeout=600)]
+    j += [Job("miri", "w_contain", "c19 --len 1 --nshards 8 --shard %d --seed %d --random 20" % (i, seed), timeout=900, miri_flags=M1, engine="miri-full") for i in range(2)]
+    j += [Job("dbg", "w_proc", "c19iso --rounds %d --shard %d" % (2 if q else 10, i), timeout=900, engine="process-isolation") for i in range(3)]
+    return j
+
+
 PROPS = {
     "C09": {
         "level": "exploration",
@@ -287,5 +298,13 @@ PROPS = {
         "rule": "for RelocatableVec, RelocatableQueue, RelocatableSlotMap, RelocatableFlatMap, RelocatableString, UniqueIndexSet, RobustUniqueIndexSet, RelocatableIndexQueue, RelocatableSafelyOverflowingIndexQueue, RelocatableBitSet and mpmc::Container (capacity 1-4): the structure is built by new_uninit + init(bump allocator) inside one block; a random history runs against a std model and after every operation, with probability 1/4, the whole block is byte-copied to a fresh allocation at another in-page offset, the old block is poisoned with 0xAA and freed, and the history continues on the copy (debug, release, ASan, Miri). Non-trivial = a history with at least one relocation; distinct = distinct (structure, history).",
         "assumptions": ["relocation = byte-for-byte copy of header + payload as a whole (what another process mapping the segment sees); moving only the header is not a supported operation"],
         "floor": (2000, 200),
+    },
+    "C19": {
+        "level": "exploration",
+        "jobs": c19_jobs,
+        "exhaustive": lambda tier: True,
+        "rule": "names: reference predicates written from the documentation of FileName, Path and FilePath, differential against the constructors over ALL byte strings of length <= 2 (quick) / <= 3 (thorough, 16.8 M per type) plus structured random strings up to 300 bytes (separators, dots, NUL, non-ASCII, maximum length +-1): accepted iff allowed, accepted names round-trip, an accepted file name cannot denote a location outside the root; mutation closure: from every accepted value of length <= 2 each of 12 mutating operations with 8 argument bytes yields a valid value or fails without changing it. Isolation: three domains (prefix P+'a' vs P+'ab' in one root; P+'a' again in a nested root) each run a node + publish-subscribe service in its own process: every created file lies under the domain's root with its prefix or is a /dev/shm object carrying the prefix; node and service listings of each domain show exactly its own; after one owner is killed, cleanup runs in the other domains neither see nor remove the dead node or any foreign file, the domain's own cleanup succeeds. Non-trivial = a random long string / an isolation query; exhaustive=true refers to the byte-string box.",
+        "assumptions": ["Linux rules (the platform-independent forbidden set is enforced on Linux too)", "service and node names are plain ASCII strings stored in a fixed-size string, their validation is the string's (covered by C16)"],
+        "floor": (100000, 100),
     },
 }
